@@ -71,6 +71,7 @@ def uf_signature(ev, clause):
         sig['order'] = 'mixed' if c['order'] in ('ea', 'ae') else 'elements'
     if clause in ('value', 'dtype', 'exact-value', 'out-not-written'):
         sig['dtype'] = dtype_class(ev['dt'])
+    sig['layout'] = {'C': 'C', 'F': 'F', 'S': 'strided'}[ev.get('layout', 'C')]
     return sig
 
 
@@ -185,7 +186,9 @@ def run(ctx):
         'only "same kind, matching shape and dtype" is demanded of the result space (weightings are not compared)',
         'keyword options exercised: axis, keepdims, dtype, out (where= is not part of the statement)',
         'power spaces need >= 2 axes (X^n of tensor spaces); 0-d out objects are exercised (rn(()) exists)',
-        'a Python builtin scalar returned for a full reduction carries no dtype (no dtype clause for it)']
+        'a Python builtin scalar returned for a full reduction carries no dtype (no dtype clause for it)',
+        'memory layout is a concretisation axis: operands (element storage and plain arrays) and out objects are C-ordered, '
+        'Fortran-ordered or strided views of caller-owned buffers; elements wrap them without copy']
     work = ctx.work
     tier = 'quick' if quick else 'thorough'
     timing = ctx.extra.setdefault('timing_s', {})
@@ -243,10 +246,11 @@ def run(ctx):
     events = Sink(work)
     seen = {}
     applicable = set()        # (ufunc, dtype, kind, method, outkind) combinations actually executed
+    layouts_done = set()      # (kind, method, outkind, layout)
 
-    def execute(case, uf, dt, variant, exp=None, exact_inputs=True, cplx=False):
+    def execute(case, uf, dt, variant, exp=None, exact_inputs=True, cplx=False, layout='C'):
         try:
-            ev, info = U.run_case(case, uf, dt, variant, exact_inputs, cplx)
+            ev, info = U.run_case(case, uf, dt, variant, exact_inputs, cplx, layout)
         except U.NotApplicable:
             return None
         ev['canonical'] = int(exact_inputs and not cplx)
@@ -255,6 +259,7 @@ def run(ctx):
         if exp is not None:
             info['expected'] = {'shape': exp['shape'], 'kind': exp['kind']}
         applicable.add((uf.__name__, dt, case['kind'], case['method'], case['outkind']))
+        layouts_done.add((case['kind'], case['method'], case['outkind'], layout))
         nontriv = not (case['method'] == 'call' and case['outkind'] == 'none' and case['order'] in ('e', 'ee')
                        and ev['ref_dtype'] == [dt])
         ctx.count([case, uf.__name__, dt, variant], nontriv)
@@ -278,7 +283,9 @@ def run(ctx):
         for ui, uf in enumerate(chosen):
             for di in range(n_dt):
                 dt = U.DTYPES[(rot + ui + di * 3) % len(U.DTYPES)]
-                ev = execute(case, uf, dt, (rot + ui + di) % 2, exp, exact_inputs=uf.__name__ in exact_names)
+                # every configuration sees the layouts C, F and strided (independent of the seed: ui + di varies)
+                ev = execute(case, uf, dt, (rot + ui + di) % 2, exp, exact_inputs=uf.__name__ in exact_names,
+                             layout=U.LAYOUTS[(ci + ui + di) % 3])
                 if ev is not None and len(ctx.samples) < 3 and ev['exact'] and case['method'] != 'call' \
                         and case['outkind'] != 'none' and ci % 97 == 3:
                     ctx.sample({'configuration': case, 'ufunc': uf.__name__, 'dtype': dt, 'expected': exp,
@@ -320,9 +327,10 @@ def run(ctx):
                             extra = [p for p in lst if p['case']['outkind'] == ok]
                             if extra:
                                 picks = picks + [extra[h % len(extra)]]
-                    for p in picks:
+                    for pi, p in enumerate(picks):
                         execute(p['case'], uf, dt, (di + len(uf.__name__)) % 2, p['exp'],
-                                exact_inputs=uf.__name__ in exact_names)
+                                exact_inputs=uf.__name__ in exact_names,
+                                layout=U.LAYOUTS[(pi + di + len(uf.__name__)) % 3])
     timing['all_ufuncs_sweep'] = round(time.time() - t_sec, 1)
     t_sec = time.time()
 
@@ -332,7 +340,7 @@ def run(ctx):
             if kind == 'power' and len(shape) < 2:
                 continue
             for dt in U.DTYPES:
-                for order in ('C', 'F'):
+                for order in ('C', 'F', 'S'):
                     for variant in (0, 1):
                         ev = U.wrap_event(kind, shape, dt, order, variant)
                         events.add(ev, {})
@@ -371,7 +379,7 @@ def run(ctx):
         uf = rnd.choice(pool)
         dt = rnd.choice(U.DTYPES)
         ev = execute(c['case'], uf, dt, rnd.randrange(2), None, exact_inputs=uf.__name__ in exact_names or rnd.random() < 0.3,
-                     cplx=rnd.random() < 0.5)
+                     cplx=rnd.random() < 0.5, layout=rnd.choice(U.LAYOUTS))
         if ev is not None:
             done += 1
     timing['random_driver'] = round(time.time() - t_sec, 1)
@@ -409,6 +417,9 @@ def run(ctx):
     for name, dt, kind, method, ok in applicable:
         per_uf.setdefault(name, set()).add((dt, kind, method, ok))
     ctx.extra['ufuncs_executed'] = len(per_uf)
+    want = {(k, m, o, l) for (k, m, o, l0) in layouts_done for l in U.LAYOUTS}
+    ctx.extra['kind_method_outkind_layout_combinations'] = len(layouts_done)
+    ctx.extra['kind_method_outkind_without_some_layout'] = sorted(map(list, want - layouts_done))
     ctx.extra['ufunc_dtype_kind_method_outkind_combinations'] = len(applicable)
     ctx.extra['ufuncs_never_applicable'] = sorted(u.__name__ for u in ufs if u.__name__ not in per_uf)
     ctx.extra['trace_events_validated_by_tlc'] = events.n
@@ -435,7 +446,8 @@ def replay(body):
     if d['stage'] in ('replay', 'trace'):
         uf = getattr(np, d['ufunc'])
         old = d['observed']
-        ev, info = U.run_case(d['case'], uf, d['dtype'], d['variant'], bool(old['inmode'][0]), bool(old['inmode'][1]))
+        ev, info = U.run_case(d['case'], uf, d['dtype'], d['variant'], bool(old['inmode'][0]), bool(old['inmode'][1]),
+                              old.get('layout', 'C'))
         print('configuration:', dumps(d['case']))
         print('ufunc / dtype:', d['ufunc'], d['dtype'], 'variant', d['variant'])
         print('reference    : shape', ev['ref_shape'], 'dtype', ev['ref_dtype'])
